@@ -161,6 +161,45 @@ def add_adsorbates(at, nads, k):
     return at, ads
 
 
+def add_same_species_pair(at, k):
+    """two adsorbates of ONE foreign species on lattice-inequivalent sites of the highest layer: one on top of a surface atom,
+    one bridging two neighbouring surface atoms (both at the sum of the covalent radii from their surface neighbours)"""
+    from ase import Atom
+    from ase.data import covalent_radii, atomic_numbers
+    pos = at.get_positions()
+    z = pos[:, 2]
+    top = [i for i in range(len(at)) if z[i] > z.max() - 0.4]
+    present = set(at.get_chemical_symbols())
+    sym = [s for s in ADSORBATES if s not in present][k % len([s for s in ADSORBATES if s not in present])]
+    ra = covalent_radii[atomic_numbers[sym]]
+    at = at.copy()
+    cell = np.array(at.get_cell())
+    i = top[k % len(top)]
+    rs = covalent_radii[at.get_atomic_numbers()[i]]
+    at.append(Atom(sym, position=pos[i] + np.array([0, 0, ra + rs])))
+    # bridge site: the pair of neighbouring top atoms (minimum image in the plane) farthest from the on-top site
+    best = None
+    for a_ in top:
+        for b_ in top:
+            if a_ >= b_:
+                continue
+            d = pos[b_] - pos[a_]
+            d[:2] -= np.round(np.linalg.solve(cell[:2, :2].T, d[:2])) @ cell[:2, :2]
+            L = np.linalg.norm(d[:2])
+            if L < 1e-6 or L > 2 * (ra + rs) - 0.3:
+                continue
+            mid = pos[a_] + 0.5 * d
+            far = np.linalg.norm(mid[:2] - pos[i, :2])
+            if best is None or (L, -far) < (best[0], -best[1]):
+                best = (L, far, mid)
+    if best is None:
+        return None, []
+    L, far, mid = best
+    h = (max((ra + rs) ** 2 - (L / 2) ** 2, 0.25)) ** 0.5
+    at.append(Atom(sym, position=[mid[0], mid[1], z.max() + h]))
+    return at, [len(at) - 2, len(at) - 1]
+
+
 def load_corpus():
     from ase import Atoms
     members = []
@@ -213,6 +252,12 @@ def enumerate_family(tier):
                         C.log("[C18] generator: %s %s(%s) x%d: %s" % (sym, st, facet, layers, e))
                         continue
                     add("%s-%s(%s)-L%d-ads%d" % (sym, st, facet, layers, nads), at, False, nads)
+                    # thin slabs once more with two adsorbates of ONE species on inequivalent sites (on top + bridge)
+                    if layers == 3 and st in ("fcc", "bcc") and (not quick or sym in ("Cu", "Fe", "Al")):
+                        at3, ads3 = add_same_species_pair(at, k)
+                        if at3 is not None:
+                            members.append({"label": "%s-%s(%s)-L%d-ads2s" % (sym, st, facet, layers), "atoms": at3,
+                                            "slab": list(range(len(at))), "ads": ads3, "two_d": False})
     for name in sorted(COMPOUNDS):
         for facet in COMPOUND_FACETS[name]:
             for layers in ([3] if quick else [3, 4]):
@@ -392,10 +437,18 @@ def run_members(ctx, members, name):
         # orientation / translation / permutation of a member are a pure function of its label (NOT of VERIF_SEED): members on
         # which the pinned tree fails are listed one by one in known_findings.json, which needs a fixed enumeration
         rng = _random.Random(int(hashlib.sha256(("c18:" + m["label"]).encode()).hexdigest()[:12], 16))
-        for variant in (0, 1):
-            at, perm = transform(rng, m["atoms"], variant == 1)
+        for variant in (0, 1, 2):
+            if variant == 2:
+                # third presentation: the atoms listed by increasing distance from the centroid of the structure (so that the
+                # atom the classifier starts from -- the one closest to the centre of mass -- is very likely index 0)
+                a0 = m["atoms"]
+                p0 = a0.get_positions()
+                perm = [int(i) for i in np.argsort(np.linalg.norm(p0 - p0.mean(axis=0), axis=1), kind="stable")]
+                at = a0[perm]
+            else:
+                at, perm = transform(rng, m["atoms"], variant == 1)
             inv = {old: new for new, old in enumerate(perm)}
-            case = c17.as_case(at, family="c18:" + m["label"], tags=["rotated+translated+permuted"] if variant else [], cfg={}, script=None,
+            case = c17.as_case(at, family="c18:" + m["label"], tags=([] if variant == 0 else (["rotated+translated+permuted"] if variant == 1 else ["sorted-by-distance-from-centroid"])), cfg={}, script=None,
                                member=mi, variant=variant, slab=sorted(inv[i] for i in m["slab"]), ads=sorted(inv[i] for i in m["ads"]),
                                time_limit=300, single_call=True)
             case["id"] = len(cases)
